@@ -20,33 +20,46 @@ Definition default_options : options :=
   {| target_endianness := EndAny; omit_float_serialization_support := false; enable_serialization_asserts := false |}.
 Definition is_little (o : options) : bool := match target_endianness o with EndLittle => true | _ => false end.
 
-(* how each language option of properties.yaml is covered by C03 *)
+(* how each language option of properties.yaml is covered by C03.  WHETHER an option reaches the (de)serialization code is not
+   decided here by hand: Codec/ObsC03Tie.v proves `reaches_codec` of every row equal to "the regenerated scan of the codec templates
+   (Generated/Gen_C03Opt.v: `options.<key>` mentions and filters / tests whose implementation reads the option) is non-empty".
+   The value lists are the option VALUES some build of the check is made with (tools/harness/c03_pairs.py option_matrix, c03_cfg/). *)
 Inductive coverage : Type :=
-| Proved           (* a field of `options`; independence is a theorem of Properties/C03.v *)
-| ProvedGate       (* a field of `options`; decides whether the program exists; independence proved where it does *)
-| PairwiseOnly     (* does not reach the codec models (changes the storage object / declarations / support rendering only);
-                      exercised by the pairwise runs of the check under several values *)
-| NotExercised     (* neither modelled nor exercised: stated as not covered *)
-| NotCodec.        (* spelling of casts / constructor conventions: no influence on (de)serialization behaviour by construction of the
-                      templates; compiled under its default only *)
+| Proved                              (* reaches the codec; a field of `options`; independence is a theorem of Properties/C03.v *)
+| ProvedGate                          (* reaches the codec; a field of `options`; decides whether the program exists; independence proved where it does *)
+| CodecDefaultOnly                    (* reaches the codec templates, not modelled, built under its default value only *)
+| CodecPairwise (built : list string) (* reaches the codec templates, not modelled; builds with these values are compared pairwise *)
+| DeclPairwise (built : list string)  (* does not reach the codec templates (storage object / declarations only); builds with these values
+                                         are compared pairwise *)
+| DeclNotExercised.                   (* does not reach the codec templates; only the default is built *)
+
+Definition reaches_codec (c : coverage) : bool :=
+  match c with Proved | ProvedGate | CodecDefaultOnly | CodecPairwise _ => true | DeclPairwise _ | DeclNotExercised => false end.
 
 Definition s2n (s : string) : list N := List.map N_of_ascii (list_ascii_of_string s).
 
 Definition c_option_coverage : list (string * coverage) :=
   [("target_endianness", Proved); ("omit_float_serialization_support", ProvedGate); ("enable_serialization_asserts", Proved);
-   ("enable_override_variable_array_capacity", PairwiseOnly);      (* without a -D..._ARRAY_CAPACITY_ macro the emitted code differs by #ifndef wrappers only *)
-   ("cast_format", NotCodec)]%string.
+   ("enable_override_variable_array_capacity", CodecPairwise ["false"; "true"]);
+       (* built WITHOUT any -D..._ARRAY_CAPACITY_ macro: the up-front capacity test stays compiled in.  With a reduced capacity macro
+          AND assertions the real code aborts on a valid call (audit3 D3, handled by C04): outside the domain of C03's statements *)
+   ("cast_format", CodecDefaultOnly)]%string.
+       (* renders the saturation bounds / casts of _serialize_integer/_float through the `literal` filter; what the default renders is
+          C05's literal theorem; a custom format string is never built *)
 
 Definition cpp_option_coverage : list (string * coverage) :=
-  [("target_endianness", PairwiseOnly);                            (* C++: selects the getU16/32/64 / setUxx rendering inside the support header, which Prims/CppPrims.v models in one rendering *)
+  [("target_endianness", CodecPairwise ["any"; "little"; "big"]);   (* selects the getU16/32/64 / setUxx rendering inside the support header; Prims/CppPrims.v models one *)
    ("omit_float_serialization_support", ProvedGate); ("enable_serialization_asserts", Proved);
-   ("enable_override_variable_array_capacity", PairwiseOnly);
-   ("std", PairwiseOnly); ("std_flavor", PairwiseOnly);            (* c++14 / c++17 / c++20 / c++17-pmr are built; cetl++14-17 cannot be compiled offline *)
-   ("cast_format", NotCodec);
-   ("variable_array_type_include", NotExercised); ("variable_array_type_template", NotExercised);
-   ("variable_array_type_constructor_args", NotExercised);         (* only the std::vector / pmr vector defaults are built *)
-   ("allocator_include", PairwiseOnly); ("allocator_type", PairwiseOnly); ("allocator_is_default_constructible", PairwiseOnly);
-   ("ctor_convention", PairwiseOnly)]%string.                      (* set by the c++17-pmr flavour defaults *)
+   ("enable_override_variable_array_capacity", CodecPairwise ["false"; "true"]);
+   ("std", DeclPairwise ["c++14"; "c++17"; "c++20"]); ("std_flavor", DeclPairwise ["std"; "pmr"]);     (* cetl: no headers offline, never built *)
+   ("cast_format", CodecDefaultOnly);
+   ("variable_array_type_include", DeclPairwise ["<vector>"; """c03_vec.hpp"""]);
+   ("variable_array_type_template", DeclPairwise ["std::vector<{TYPE}>"; "::c03stub::vec<{TYPE}, {MAX_SIZE}>"]);   (* harness stub c03_cfg/include/c03_vec.hpp *)
+   ("variable_array_type_constructor_args", DeclNotExercised);
+   ("allocator_include", DeclPairwise [""; "<memory_resource>"]); ("allocator_type", DeclPairwise [""; "std::pmr::polymorphic_allocator"]);
+   ("allocator_is_default_constructible", DeclPairwise ["true"]);    (* false: only with cetl, not buildable offline *)
+   ("ctor_convention", CodecPairwise ["default"; "uses-trailing-allocator"; "uses-leading-allocator"])]%string.
+       (* reaches the C++ deserializer through `default_construction` of the array-element temporaries *)
 
 (* floats anywhere in the type: with omit_float_serialization_support the generated C / C++ code for such a type does not compile *)
 Fixpoint uses_float (t : ty) : bool :=
